@@ -92,6 +92,12 @@ prop("C19", stems=[], props=["Props/C19.v"], falsify=None, corr="corr_conv", cor
      technique="Coq proof by structural induction on a hand-written executable model + differential correspondence with the implementation",
      explanation="meaning preservation of the SymPy->CasADi converter for all expression trees of the modelled grammar")
 
+prop("C14", stems=["Ref", "SO3Quat", "SO3Euler", "Rdd2", "Loglinear"], props=["Props/C14.v"], falsify="falsify_C14",
+     level_text="Kernel-checked on the regenerated model: eulerB321_to_quat returns, for all angles, a unit quaternion whose matrix is Rz Ry Rx; the matrix->quaternion step with which position_control, the SE_2(3) outer loop and f_ref end (dcm_to_quat = SO3Quat.from_Matrix) returns, for EVERY proper rotation matrix (all headings and tilts, all four Shepperd branches), a unit quaternion with exactly that matrix. PARTIAL: that the matrices these producers build from the demanded force and heading are proper rotations with body z along the force and body y perpendicular to the heading, the rate/moment identities of the flatness maps and the agreement of f_ref with mr_ref_traj are NOT theorems in this snapshot (the sliced proofs over the 300-1800-instruction units did not finish within the time budget); they are checked by the numeric search against independent numpy reconstructions (incl. finite-difference rotation rates, headings beyond +-120 deg with tilt, saturated feedback, degenerate branches). Known finding: position_control's fallback for thrust parallel to the heading is not a rotation.",
+     level_note=GEN_NOTE,
+     technique="Coq proof (Shepperd theorem for all proper rotation matrices, congruence bridges) over a model regenerated from source; numeric search for the construction of the matrices",
+     explanation="set-point quaternions for all rotation matrices / Euler angles")
+
 prop("C16", stems=["Quadrotor"], props=["Props/C16.v"], falsify="falsify_C16",
      level_text="Kernel-checked theorems over the regenerated real-number model of quadrotor.derive_model(): q.qdot=0, quaternion and position kinematics, hover equilibrium, free-fall accelerometer, rotor-sum wrench (Euler and Newton equations), motor first-order law, translation and yaw equivariance, for ALL states, inputs and parameter vectors (parameters are symbolic). Not proved: the exponential closed-form motor response (only the ODE right-hand side), drag-on branch of the force sum.",
      level_note=GEN_NOTE + "Numeric search on the real functions (harness/falsify_C16.py) supports replay generation only.",
